@@ -73,6 +73,8 @@ def run(prog: Program, rep: Report, tier: str):
                 "cast-raw": "the result of self.origin(val) is handed out as it is: for `class UserId(int)` the marshalled value is a UserId, not an exact int (strict encoders refuse it; as a dict key it is no primitive key)",
                 "str-raw": "the result of str(val) is handed out as it is: a str subclass whose __str__ returns itself (the shape of a 'safe string' class) is emitted as that subclass",
                 "enum-value-unguarded": "`.value` is read off any object: under Union[Status, Money] a Money instance with a `value` field is emitted as that raw attribute (a Decimal), the union never reaching Money's own routine",
+                "str-printed": "str(val) asks the value's class how it prints: a member of `class Kind(str, Enum)` -- a str equal to 'b' -- is written as 'Kind.B' for T = str, for the keys of dict[str, int] and for every str field, and comes back as another text",
+                "pattern-raw": "`.pattern` is handed out as it is: a pattern compiled from an instance of a str subclass (a StrEnum member) keeps that very object, which is emitted instead of an exact str",
                 "pattern-unguarded": "`.pattern` is read off any object: under Union[re.Pattern, Rule] a Rule instance with a `pattern` field is emitted as that raw attribute",
             }
             rep.check(not bad, "R06.1", c.qualname, f.loc, f"scalar row returns {sorted(forms)}", f"scalar row returns {sorted(bad)}, outside the JSON-plain lattice" + "".join("; " + why[b] for b in sorted(bad) if b in why))
